@@ -170,6 +170,9 @@ func main() {
 				}
 			}
 		}
+		for _, u := range c.UFuns {
+			x.ufuns[u.Name] = u
+		}
 		for _, sf := range c.SumFields {
 			if x.sumFields == nil {
 				x.sumFields = map[string][]string{}
